@@ -165,3 +165,10 @@ _EXTRA9B = {
 }
 for _pid, _t in _EXTRA9B.items():
     NOTES[_pid]['technique'] = NOTES[_pid]['technique'] + _t
+
+_EXTRA9C = {
+    'C13': '; the wheel loses nothing (Add / Delete / DeleteExpired keep every other scheduled node scheduled or hand it to the expiration callback) and the sweep theorem on the mapped nodes over every history of the joint wheel/table model (Proofs.WheelJoint)',
+    'C05': '; every mapped node with a deadline is scheduled in the timer wheel after every history of the joint wheel/table model (Proofs.WheelJoint)',
+}
+for _pid, _t in _EXTRA9C.items():
+    NOTES[_pid]['technique'] = NOTES[_pid]['technique'] + _t
